@@ -85,6 +85,8 @@ FIXED_SETS = [
     [('hi', '[\\x80-\\xff]+'), ('lo', '[\\x01-\\x7f]'), ('nul', '\\x00')],
     ['true', 'try', 't', ('ident', '[a-z_]+')],
     [('num', '\\-?(0|[1-9][0-9]*)(\\.[0-9]+)?((e|E)(\\+|\\-)?[0-9]+)?'), '-', ',', '[', ']'],
+    ['ab', ('p1', 'a(b)'), ('p2', '[a]b'), ('p3', 'a[b]'), ('p4', '(ab)'), ('p5', '(a)(b)'), 'abc'],
+    [('q1', 'x+'), ('q2', 'xx*'), ('q3', 'x{1}x*'), ('q4', 'x(x)*'), ('q5', '(x)+'), ('q6', 'x+y'), 'x'],
     [('string', '"([^\\\\"\\x00-\\x1F]|\\\\[\\\\"/bfnrt]|\\\\u[0-9A-Fa-f]{4})*"'), ':', '{', '}', 'true', 'false', 'null'],
 ]
 
